@@ -59,8 +59,8 @@ ASSUMPTIONS = ["'equal custom attributes' means the instance __dict__ (minus _py
 
 SERIALIZERS = ["serpent", "json", "marshal", "msgpack"]
 SERVERTYPES = ["thread", "multiplex"]
-KINDS = ["call", "getattr", "setattr", "batch-first", "batch-middle", "batch-last", "stream"]
-FUNC_OF_KIND = {"call": "raise_it", "getattr": "prop", "setattr": "prop", "batch-first": "raise_it", "batch-middle": "raise_it",
+KINDS = ["call", "getattr", "setattr", "batch-first", "batch-middle", "batch-last", "stream", "reraise"]
+FUNC_OF_KIND = {"reraise": "raise_second", "call": "raise_it", "getattr": "prop", "setattr": "prop", "batch-first": "raise_it", "batch-middle": "raise_it",
                 "batch-last": "raise_it", "stream": "gen"}
 COMM_ERRORS = ["CommunicationError", "ConnectionClosedError", "TimeoutError", "ProtocolError", "MessageTooLargeError"]
 HANG_GUARD_S = 20.0
@@ -223,6 +223,14 @@ def target_class():
             def raise_it(self, spec):
                 raise build_exception(spec)
 
+            def raise_first(self, spec):
+                self.kept = build_exception(spec)
+                raise self.kept
+
+            def raise_second(self):
+                # the very same exception OBJECT is raised once more, from another place (a stored failure reported again)
+                raise self.kept
+
             @property
             def prop(self):
                 raise build_exception(self.spec)
@@ -376,6 +384,16 @@ def _perform(p, case):
     try:
         if kind == "call":
             return ("returned", p.raise_it(spec), 0)
+        if kind == "reraise":
+            # first raise through a proxy of its own (some classes make the daemon close the connection after its reply)
+            p1 = live.proxy(str(p._pyroUri), serializer=p._pyroSerializer, timeout=HANG_GUARD_S)
+            try:
+                p1.raise_first(spec)
+            except Exception:
+                pass
+            finally:
+                p1._pyroRelease()
+            return ("returned", p.raise_second(), 0)
         if kind == "getattr":
             p.set_spec(spec)
             return ("returned", p.prop, 0)
@@ -579,6 +597,9 @@ def run_live_case(case):
         return viols
     if spec["cls"] == "StopIteration" and spec["ns"] == "builtins" and kind == "stream":
         _note(case, "skipped:stopiteration-in-generator")
+        return viols
+    if kind == "reraise" and fam != "transportable":
+        _note(case, "skipped:reraise-is-about-transportable-exceptions")      # (the other families are judged on their first raise)
         return viols
     _tag, exp_type, exp_args, exp_vars, local = exp
     try:
@@ -1031,7 +1052,7 @@ def concurrent_strategy(draw, servertype, ser):
         kind = draw(st.sampled_from(KINDS))
         k = draw(st.integers(0, 2))
         spec = draw(spec_strategy())
-        if kind in ("getattr", "setattr") and any(x["kind"] in ("getattr", "setattr") for x in subs):
+        if kind in ("getattr", "setattr", "reraise") and any(x["kind"] in ("getattr", "setattr", "reraise") for x in subs):
             kind = "call"       # the property of the (single) target object raises what set_spec stored: one such client at a time
         subs.append({"kind": kind, "k": k if kind in ("batch-middle", "batch-last", "stream") else 0, "spec": spec})
     return {"level": "concurrent", "servertype": servertype, "ser": ser, "subs": subs, "rounds": 4}
